@@ -184,6 +184,7 @@ func propC13(w *World, r *Report) {
 			cffFns = append(cffFns, f)
 		}
 	}
+	RunNumberExact(w, r)
 	RunPrevSentinel(w, r, cffFns)
 	r.Floor("prevsentinel", 1)
 	r.Floor("dicttypes", 15)
@@ -569,4 +570,65 @@ func checkOffSize(w *World, r *Report) {
 func isNumeric(t types.Type) bool {
 	b, ok := t.Underlying().(*types.Basic)
 	return ok && b.Info()&types.IsNumeric != 0
+}
+
+// RunNumberExact: cff.dictNumber chooses between the integer and the real
+// encoding of a DICT operand.  The integer form may be chosen only for values
+// it represents exactly: every return of a value converted from the float
+// argument to an integer type is reached through the true edge of an equality
+// test between the argument and the back-conversion of that very integer
+// (float64(int32(x)) == x).  A range test (|x| <= MaxInt32) is not enough: it
+// lets 600.25 through as 600.
+func RunNumberExact(w *World, r *Report) {
+	r.Rule("numberexact: in cff.dictNumber a value converted from the float64 argument to an integer type is returned only under an equality test between the argument and the back-conversion of that integer: fractions are never cut off when the number form is chosen")
+	fn := w.Func("cff.dictNumber")
+	key := r.MkKey("numberexact", "cff.dictNumber", "integer form")
+	if fn == nil || len(fn.Params) != 1 {
+		r.Fatal("numberexact: cff.dictNumber does not resolve")
+		return
+	}
+	x := fn.Params[0]
+	n := 0
+	for _, b := range fn.Blocks {
+		rt, ok := b.Instrs[len(b.Instrs)-1].(*ssa.Return)
+		if !ok || len(rt.Results) != 1 {
+			continue
+		}
+		mi, ok := rt.Results[0].(*ssa.MakeInterface)
+		if !ok {
+			continue
+		}
+		cv, ok := mi.X.(*ssa.Convert)
+		if !ok || cv.X != ssa.Value(x) || !isIntType(cv.Type()) {
+			continue
+		}
+		n++
+		exact := false
+		for _, g := range guardsOf(b) {
+			bo, ok := g.cond.(*ssa.BinOp)
+			if !ok || bo.Op != token.EQL || !g.then {
+				continue
+			}
+			for _, pr := range [][2]ssa.Value{{bo.X, bo.Y}, {bo.Y, bo.X}} {
+				back, ok := pr[0].(*ssa.Convert)
+				if !ok || pr[1] != ssa.Value(x) {
+					continue
+				}
+				if inner, ok := back.X.(*ssa.Convert); ok && inner.X == ssa.Value(x) && types.Identical(inner.Type(), cv.Type()) {
+					exact = true
+				}
+				if back.X == ssa.Value(cv) {
+					exact = true
+				}
+			}
+		}
+		if exact {
+			r.OK("numberexact", key, w.Pos(rt.Pos()), "returned only when the conversion is exact")
+		} else {
+			r.Fail("numberexact", key, w.Pos(rt.Pos()), "the argument is returned converted to an integer without a test that the conversion is exact: a fractional DICT operand (a width parameter such as 600.25) is written as an integer while the charstrings were encoded against the exact value", nil)
+		}
+	}
+	if n == 0 {
+		r.OK("numberexact", key, w.Pos(fn.Pos()), "the function never returns a converted integer")
+	}
 }
